@@ -2,12 +2,15 @@
 
 (a) tie: exact equality of the instruction list emitted by the REAL generator (real EBPF subclass, real operator
     overloads, `harness/vh/dsl.py`) and by the Lean model `Ebv.Gen` (driver Drivers/C01.lean) on generated programs,
-    including the object tree the operator overloads built, the programs the generator refuses, and the program-level
-    defect-class predicates (Python evaluates them on the real object tree, Lean on its `Expr`);
+    including the object tree the operator overloads built (with the `signed` attribute of every node), the programs the
+    generator refuses, and the program-level defect-class predicates (Python: shape of the real object tree, leaves typed by
+    the program text; Lean: its `Expr`);
 (b) property oracle on the implementation: the REAL emitted code is executed by the independent interpreter
     (`harness/vh/interp.py`) from boundary/random register and variable contents; the destination is compared with a
     Python big-integer evaluation of the surface expression (mod 2^width, in the destination's format), every other
-    owned register and declared variable with its old value, inside the precondition of DESIGN §4 C01;
+    owned register and declared variable with its old value, inside the precondition of DESIGN §4 C01; what an operand's
+    size and signedness ARE comes from the program text (dsl.psigned / dsl.pwidth), never from the implementation's objects:
+    the value-dependent classes (divmod-negative, rshift-negative-logical) are decided on the surface expression;
 (c) three-way validation of the instruction-set model (Lean `Ebv.Ebpf` / interp.py / kernel)."""
 import struct
 
@@ -26,6 +29,8 @@ THEOREMS = [
     "Ebv.C01.C01_full_refuted", "Ebv.C01.before_fix_unary_in_place", "Ebv.C01.before_fix_unary_32_in_64",
     "Ebv.C01.narrow_reg_in_64_refuted", "Ebv.C01.before_fix_sum_minus", "Ebv.C01.before_fix_abs_32",
     "Ebv.C01.divmod_negative_refuted", "Ebv.C01.rshift_negative_refuted",
+    "Ebv.Gen.elab_psigned", "Ebv.C01.typing_exact",
+    "Ebv.C01.before_fix_sum_signed", "Ebv.C01.before_fix_sum_merged", "Ebv.C01.before_fix_and_signed",
 ]
 TRUSTED = ["hand-written model Ebv.Gen of the expression code generator (ebpfcat/ebpf.py: operator protocol, calculate/load/"
            "_set/__setitem__, get_free_register), tied by EXACT opcode-list equality with the real generator on generated "
@@ -38,7 +43,11 @@ ASSUMPTIONS = ["registers in `owned` are declared by assigning EBPF.owners befor
                "flat byte memory: bounds and alignment are the verifier's business (C05); little-endian host",
                "the oracle checks each statement from the machine state the previous statements left, inside the "
                "precondition of DESIGN §4 C01 (W-bit fit below // % >> abs, shift counts in [0, W), divisors non-zero), "
-               "for well-typed programs (every register read is owned)"]
+               "for well-typed programs (every register read is owned)",
+               "signedness and width of operands are the property's (dsl.psigned: leaves by declared kind, a result signed as soon as "
+               "one operand is; -a signed, abs unsigned, a & b signed iff both are, a >> n like a; int (op) int is one constant): the "
+               "class rshift-negative-logical holds only for a >> whose left operand the PROPERTY types unsigned; Ebv.Gen.elab_psigned "
+               "proves that the model's `signed` attributes (compared node by node with the real objects) equal this typing"]
 RULE = ("programs = JSON surface DSL (dsl.py): random trees to depth 5 over registers in the views r/sr/w/sw, variables of the "
         "formats B H I Q b h i q (stack and array-map), constants from the classes {0, +-1, small, +-2^31 edges, >= 2^32, "
         "negative 64-bit, > 2^64}, operators + - * | ^ << & >> // % neg abs and computed addresses; the depth-1 family "
@@ -46,6 +55,8 @@ RULE = ("programs = JSON surface DSL (dsl.py): random trees to depth 5 over regi
         "leaf kind classes), sampled in the quick tier and enumerated (stage 3 depth 2: 60000 sampled) in the thorough tier; targeted "
         "shapes (Sum +- int, int + Sum, Sum - expr also below other operators, ONE Sum object used twice with different added "
         "constants (let/ref: a real shared object), Binary + Sum, destination aliasing, register pressure, unowned registers); "
+        "the typing family: X >> n with X an operand whose signedness an operator rule decides (register +- int in every "
+        "spelling incl. chains that merge their numbers, & of signed / mixed / constant operands, unsigned differences, neg, abs); "
         "inputs = boundary (0, +-1, sign bits, all-ones, width edges) and random register/variable contents, half of them small "
         "so that products and quotients stay inside the precondition; non-trivial = accepted with more than one instruction")
 
@@ -66,7 +77,7 @@ INPUT_CLASSES = ["divmod-negative", "rshift-negative-logical"]
 def ret_long(E, v, L):
     """the width flag `calculate` yields for v when asked for width L"""
     if isinstance(v, E.Register):
-        return bool(v.long)
+        return dsl.reg_long(v)
     if isinstance(v, E.Constant):
         return not (-0x80000000 <= v.value < 0x100000000)
     if isinstance(v, E.Unary):
@@ -86,10 +97,12 @@ TEMP = -1    # "a fresh temporary": differs from every register the expression m
 
 def tree_classes(E, v, L, forced, dst, out):
     """walks the object tree the way `calculate` does: L = requested width, forced/dst = the destination the node
-    is forced into (dst None: any register; TEMP: a fresh temporary)"""
+    is forced into (dst None: any register; TEMP: a fresh temporary).  The tree gives the SHAPE of the computation (which
+    node is forced where); what a register leaf IS (w/sw view: 32 bits; sw: signed) comes from the program text
+    (dsl.reg_long / dsl.reg_signed), not from the object's own flags"""
     if isinstance(v, E.Register):
         zero_extended = forced and dst != v.no             # a 32-bit MOV into the destination zero-extends
-        if L and not v.long and (v.signed or not zero_extended):
+        if L and not dsl.reg_long(v) and (dsl.reg_signed(v) or not zero_extended):
             out.add("narrow-reg-in-64")
     elif isinstance(v, E.Binary):
         d = TEMP if dst is None or (dst != TEMP and v.right.contains(dst)) else dst
@@ -125,7 +138,7 @@ def eval_obj(E, v, regs, varat):
     if isinstance(v, E.Constant):
         return int(v.value)
     if isinstance(v, E.Register):
-        return dsl.view_value(("s" if v.signed else "") + ("r" if v.long else "w"), regs[v.no])
+        return dsl.view_value(dsl.reg_view(v), regs[v.no])
     if isinstance(v, E.Negate):
         return -eval_obj(E, v.arg, regs, varat)
     if isinstance(v, E.Absolute):
@@ -147,33 +160,37 @@ def eval_obj(E, v, regs, varat):
     return {"ADD": a + b, "SUB": a - b, "MUL": a * b, "OR": a | b, "AND": a & b, "XOR": a ^ b}[op]
 
 
-def input_classes(E, obj, regs, varat):
-    """classes that depend on the operand values: evaluated on the object tree the real operator overloads built,
-    so that `>>` is known to be logical (RSH) or arithmetic (ARSH)"""
+def input_classes(expr, regs, vals, fm):
+    """classes that depend on the operand values, decided on the SURFACE expression (the program text) with the reference
+    values and the property-level typing `dsl.psigned` -- not on the implementation's object tree:
+    divmod-negative: a // or % with a negative operand (the generator only has the unsigned DIV / MOD);
+    rshift-negative-logical: a >> whose left operand the PROPERTY types unsigned (unsigned leaves only, e.g. the
+    difference w3 - w4) and whose value is negative.  A >> of an operand the property types signed is in no class: a
+    logical shift there is a failure of the check"""
     out = set()
 
     def val(x):
         try:
-            return eval_obj(E, x, regs, varat)
+            return dsl.eval_ref(x, regs, vals)
         except (dsl.Outside, KeyError):
             return None
 
-    def go(v):
-        if isinstance(v, E.Unary):
-            go(v.arg)
-        elif isinstance(v, E.Memory):
-            if not isinstance(v.address, E.Sum):
-                go(v.address)
-        elif isinstance(v, E.Binary):
-            go(v.left)
-            go(v.right)
-            a, b = val(v.left), val(v.right)
-            if v.operator.name in ("DIV", "MOD") and ((a is not None and a < 0) or (b is not None and b < 0)):
-                out.add("divmod-negative")
-            if v.operator.name == "RSH" and a is not None and a < 0:
-                out.add("rshift-negative-logical")
-    if not isinstance(obj, int) and obj is not None:
-        go(obj)
+    def go(x):
+        k = x[0]
+        if k in ("c", "v") or k in dsl.VIEWS or dsl.fold_int(x) is not None:
+            return                                        # a leaf, or folded by Python itself: no code
+        if k in ("neg", "abs"):
+            return go(x[1])
+        if k == "m":
+            return go(x[2])
+        go(x[1])
+        go(x[2])
+        A, B = val(x[1]), val(x[2])
+        if k in ("//", "%") and ((A is not None and min(A) < 0) or (B is not None and min(B) < 0)):
+            out.add("divmod-negative")
+        if k == ">>" and A is not None and min(A) < 0 and not dsl.psigned(x[1], fm):
+            out.add("rshift-negative-logical")
+    go(dsl.expand(expr))
     return out
 
 
@@ -272,8 +289,6 @@ def check_program(ctx, prog, built, insns, inputs_list, replaying=False):
             regview = dict(regs)
             regview.setdefault(10, interp.STACK_TOP)
             pcls = stmt_classes(E, st, built.objs[i], R.fm, built.flags[i])
-            byloc = {(b, off): n for n, (b, off, f) in R.layout.items()}
-            varat = lambda base, off, fmt, _v=vals, _b=byloc: _v[_b[(base, off)]]
             try:
                 ref = dsl.eval_ref(expr, regview, vals)
                 inside = dsl.pre_holds(expr, regview, vals, W)
@@ -295,7 +310,7 @@ def check_program(ctx, prog, built, insns, inputs_list, replaying=False):
                     continue
             if isinstance(res, str):
                 if inside:
-                    icls = input_classes(E, built.objs[i], regview, varat)
+                    icls = input_classes(expr, regview, vals, R.fm)
                     cls = first_class(pcls, icls)
                     ctx.require(False, "generated code faults inside the precondition", case, res, cls)
                     status.append("fault")
@@ -315,7 +330,7 @@ def check_program(ctx, prog, built, insns, inputs_list, replaying=False):
                 if not okf:
                     break
             else:
-                icls = input_classes(E, built.objs[i], regview, varat)
+                icls = input_classes(expr, regview, vals, R.fm)
                 cls = first_class(pcls, icls)
                 if dest[0] == "v":
                     f = R.fm[dest[1]]
@@ -384,6 +399,8 @@ def gen_programs(ctx):
             out.append((f"depth2-s{stage}", stage, dsl.build_desc(rng, d, stage)))
     for _ in range(ctx.n(300, 6000)):
         out.append(("special", 3, dsl.gen_special(rng)))
+    for _ in range(ctx.n(400, 8000)):
+        out.append(("typing", 3, dsl.gen_typing(rng)))
     return out
 
 
@@ -475,7 +492,10 @@ LEVEL_NOTE = ("trusted: Lean kernel + propext/Classical.choice/Quot.sound; Gen <
               "the operator changed the user's register; it works on a copy now; calc_correct without the exclusion, regression witness "
               "before_fix_unary_in_place); unary minus / abs on a 32-bit operand inside a 64-bit computation (was class unary-32-in-64: "
               "executed in 32 bits; now `long or arg_long`; regression witness before_fix_unary_32_in_64). Repaired, checked by correspondence and the oracle without excuse: abs in a 32-bit computation "
-              "(was class abs-32; regression witness before_fix_abs_32). Also seen, outside the property: a register nobody owns is accepted while it is handed out as a "
+              "(was class abs-32; regression witness before_fix_abs_32). Typing repaired (the checks had masked it: they took "
+              "signedness from the implementation's objects): register +- int forgot the register's signedness, followed the merged "
+              "number, & of two signed operands was unsigned; regression witnesses before_fix_sum_signed / _sum_merged / _and_signed; "
+              "elab_psigned: model typing = property typing for every expression. Also seen, outside the property: a register nobody owns is accepted while it is handed out as a "
               "temporary.")
 TECHNIQUE = "Lean 4 structural induction over expression trees (compiler correctness) + exact opcode-list correspondence"
 DESIGN_REF = "§4 C01"
